@@ -627,6 +627,8 @@ class Equiv1Macro(Macro):
     
     def eval(self, args, prevs):
         pt = prevs[0]
+        if not pt.prop.is_equals() or len(args) != 2:
+            raise VeriTException("equiv1", "premise must be an equivalence")
         p1, p2 = pt.prop.args
         if Not(p1) == args[0] and p2 == args[1]:
             return Thm(Or(*args), pt.hyps)
